@@ -729,7 +729,7 @@ impl Property for C05 {
         "exploration"
     }
     fn rule(&self) -> String {
-        "decider builds a closed graph-like Clifford+T diagram (Erdos-Renyi, planted cats with 0/pi hub, phase gadgets sharing neighbourhoods, planted T-pair shape, isolated T spiders, disjoint unions; or <b|C|0..0> of a random Clifford+T(+CCZ) circuit), a configuration (driver x simp level x split x history) and then, while the run proceeds, every ambient RNG draw of the random drivers, every hash key of the dynamic-T driver, and for the parallel executions the worker count W in 1..16, the order of the tasks of every fork-join region and their workers. Each scenario is executed sequentially and in parallel under two schedules. Oracle: exact Z[omega] evaluator of the closed diagram; per-step conservation (sum of terms = diagram, product of components = diagram); sequential/parallel twin. Non-trivial: T-count >= 1, >= 1 decomposition step, and a fork-join region with >= 2 tasks in a parallel execution. Distinct by (scenario digest, event digest incl. decision trace, schedules and results). Sub-batches saved (open diagrams, saved Clifford terms summed) and one_step (apply_decomp on embedded sites).".into()
+        "decider builds a closed graph-like Clifford+T diagram (Erdos-Renyi, planted cats with 0/pi hub, phase gadgets sharing neighbourhoods, planted T-pair shape, isolated T spiders, disjoint unions; or <b|C|0..0> of a random Clifford+T(+CCZ) circuit), a configuration (driver x simp level x split x history) and then, while the run proceeds, every ambient RNG draw of the random drivers, every hash key of the dynamic-T driver, and for the parallel executions the worker count W in 1..16, the order of the tasks of every fork-join region and their workers. Each scenario is executed sequentially and in parallel under two schedules. Oracle: exact Z[omega] evaluator of the closed diagram; per-step conservation (sum of terms = diagram, product of components = diagram); sequential/parallel twin. The saved-terms sub-batch runs the two-stage history (decompose_until_depth(1..4), then decompose) in half of its runs. Non-trivial: T-count >= 1, >= 1 decomposition step, and a fork-join region with >= 2 tasks in a parallel execution. Distinct by (scenario digest, event digest incl. decision trace, schedules and results). Sub-batches saved (open diagrams, saved Clifford terms summed) and one_step (apply_decomp on embedded sites).".into()
     }
     fn assumptions(&self) -> Vec<String> {
         vec![
